@@ -488,8 +488,10 @@ def run(ctx):
             steps.append("(%s, [%s])" % (mops[-1], ";".join(num(x) for x in st["post"])))
         items.append("(%d%%nat, [%s], [%s], [%s])" % (MAXI, ";".join(map(str, BLOCKS)), ";".join(map(str, CCIDS)), ";\n ".join(steps)))
     bad_w = []
-    SH = 150
-    for s in range(0, len(items), SH):
+    SH = 25
+    from concurrent.futures import ThreadPoolExecutor
+
+    def wal_shard(s):
         txt = hdr + [
             "Definition skipping_check (t : wtrace) : nat :=",
             "  let '(maxi, hashes, ccids, tr) := t in",
@@ -512,21 +514,28 @@ def run(ctx):
         flat = " ".join(out.split())
         m = re.search(r"MW = (\[.*?\]|nil)\s*:", flat)
         if rc != 0 or not m:
-            corr_broken = ("WAL correspondence could not be evaluated", out[-2500:])
-            break
+            return None, ("WAL correspondence could not be evaluated", out[-2500:])
         found = re.findall(r"\((\d+)(?:%nat)?\s*,\s*(\d+)(?:%nat)?\)", m.group(1))
         if not found and m.group(1) not in ("[]", "nil"):
-            corr_broken = ("could not parse the list of disagreeing WAL histories", m.group(1)[:300])
-            break
-        for a, b in found:
-            bad_w.append((s + int(a), int(b)))
-    if bad_w and not corr_broken:
-        allg = corpus + gens
-        bad_w.sort(key=lambda x: (len(allg[x[0]].ops), x[1]))
-        t, sidx = bad_w[0]
-        corr_broken = ("model/implementation differ on %d WAL histories" % len(bad_w),
-                       {"smallest": {"ops": allg[t].ops[: sidx + 1], "impl_obs": wres[t]["steps"][min(sidx, len(wres[t]["steps"]) - 1)]}})
-    # membership
+            return None, ("could not parse the list of disagreeing WAL histories", m.group(1)[:300])
+        return [(s + int(a), int(b)) for a, b in found], None
+
+    SHM = 1500
+
+    def mem_shard(s):
+        txt = hdr + ["Definition vcases : list vcase := [%s]." % ";\n".join(vitems[s: s + SHM]),
+                     "Definition MV := Eval vm_compute in mismatches_from vcase_ok vcases 0.", "Print MV.",
+                     "Definition ecases : list ecase := [%s]." % ";\n".join(eitems[s: s + SHM]),
+                     "Definition ME := Eval vm_compute in mismatches_from ecase_ok ecases 0.", "Print ME."]
+        rc, out = ctx.coq_eval("c16_mem_%d" % s, "\n".join(txt))
+        flat = " ".join(out.split())
+        mv = re.search(r"MV = (\[.*?\]|nil)\s*:", flat)
+        me = re.search(r"ME = (\[.*?\]|nil)\s*:", flat)
+        if rc != 0 or not mv or not me:
+            return None, ("membership correspondence could not be evaluated", out[-2500:])
+        return ([s + int(x) for x in re.findall(r"\d+", mv.group(1))], [s + int(x) for x in re.findall(r"\d+", me.group(1))]), None
+
+    # membership case lists
     vitems = []
     for c, r in zip(val_cases, vres):
         m = "None" if c["m"] is None else "Some (%s)" % coq_member(c["m"])
@@ -539,21 +548,28 @@ def run(ctx):
             ";".join("mk_prog %d %d %d" % tuple(p) for p in c["progs"]), c["t"], c["nid"], r["code"],
             ";".join(str(x) for x in r["states"])))
     bad_v, bad_e = [], []
-    SHM = 2500
-    for s in range(0, max(len(vitems), len(eitems)), SHM):
-        txt = hdr + ["Definition vcases : list vcase := [%s]." % ";\n".join(vitems[s: s + SHM]),
-                     "Definition MV := Eval vm_compute in mismatches_from vcase_ok vcases 0.", "Print MV.",
-                     "Definition ecases : list ecase := [%s]." % ";\n".join(eitems[s: s + SHM]),
-                     "Definition ME := Eval vm_compute in mismatches_from ecase_ok ecases 0.", "Print ME."]
-        rc, out = ctx.coq_eval("c16_mem_%d" % s, "\n".join(txt))
-        flat = " ".join(out.split())
-        mv = re.search(r"MV = (\[.*?\]|nil)\s*:", flat)
-        me = re.search(r"ME = (\[.*?\]|nil)\s*:", flat)
-        if rc != 0 or not mv or not me:
-            corr_broken = corr_broken or ("membership correspondence could not be evaluated", out[-2500:])
-            break
-        bad_v += [s + int(x) for x in re.findall(r"\d+", mv.group(1))]
-        bad_e += [s + int(x) for x in re.findall(r"\d+", me.group(1))]
+    with ThreadPoolExecutor(max_workers=6) as pool:
+        fw = [pool.submit(wal_shard, s) for s in range(0, len(items), SH)]
+        fm = [pool.submit(mem_shard, s) for s in range(0, max(len(vitems), len(eitems)), SHM)]
+        for f in fw:
+            r, err = f.result()
+            if r is None:
+                corr_broken = corr_broken or err
+            else:
+                bad_w += r
+        for f in fm:
+            r, err = f.result()
+            if r is None:
+                corr_broken = corr_broken or err
+            else:
+                bad_v += r[0]
+                bad_e += r[1]
+    if bad_w and not corr_broken:
+        allg = corpus + gens
+        bad_w.sort(key=lambda x: (len(allg[x[0]].ops), x[1]))
+        t, sidx = bad_w[0]
+        corr_broken = ("model/implementation differ on %d WAL histories" % len(bad_w),
+                       {"smallest": {"ops": allg[t].ops[: sidx + 1], "impl_obs": wres[t]["steps"][min(sidx, len(wres[t]["steps"]) - 1)]}})
     if bad_v and not corr_broken:
         corr_broken = ("model/implementation differ on %d validateChangeMembership cases" % len(bad_v),
                        [dict(case=val_cases[i], impl=vres[i]) for i in bad_v[:4]])
